@@ -322,4 +322,315 @@ theorem multilineText_rt {α : Type} {pfx : Parser α} {P : List Char} {x : α} 
       simp only [hrest]
       simp [hs]
 
+/-! ## top-level comment -/
+
+theorem topComment_rt (w : List Char → Nat) (s : String) (h : wfMultiline isCommentPrefix s.toList = true)
+    (rest : List Char) (hrest : Stop isCommentPrefix rest) :
+    topComment (printEntry w (.comment s) ++ rest) = .ok (.comment s) rest := by
+  have := multilineText_rt (pfx := takeWhile1 isCommentPrefix) (P := [';']) (x := [';']) isCommentPrefix s h
+    (by
+      intro l X hl
+      have := takeWhile1_append (p := isCommentPrefix) (a := [';']) (rest := l ++ '\n' :: X) (by simp)
+        (by simp [isCommentPrefix]) (by
+          cases l with
+          | nil => simp [isCommentPrefix]
+          | cons c t => simpa using hl c t rfl)
+      simpa using this)
+    (by simp) rest rest (takeWhile1_stop hrest)
+  simp [topComment, printEntry, this]
+
+/-! ## the entry loop -/
+
+/-- the text begins with a character that is neither blank nor a line end (every printed entry does) -/
+def StartsEntry (X : List Char) : Prop := ∃ c r, X = c :: r ∧ c ≠ '\n' ∧ c ≠ '\r' ∧ c ≠ ' ' ∧ c ≠ '\t'
+
+def vsElem : Parser Unit := lineEnding <|| void (pair space1 (lineEnding <|| eof))
+
+theorem vsElem_stop {X : List Char} (h : StartsEntry X ∨ X = []) : ∃ z, vsElem X = .bt z := by
+  rcases h with ⟨c, r, rfl, h1, h2, h3, h4⟩ | rfl
+  · refine ⟨c :: r, ?_⟩
+    have hl : lineEnding (c :: r) = .bt (c :: r) := by
+      unfold lineEnding
+      split <;> simp_all
+    have hs : space1 (c :: r) = .bt (c :: r) := takeWhile1_stop (by simp [isSpace, h3, h4])
+    simp [vsElem, alt2, hl, hs]
+  · exact ⟨[], by simp [vsElem, alt2, lineEnding, space1, takeWhile1]⟩
+
+theorem verticalSpaces_stop {X : List Char} (h : StartsEntry X ∨ X = []) : verticalSpaces X = .ok () X := by
+  obtain ⟨z, hz⟩ := vsElem_stop h
+  have : repeat0 vsElem X = .ok [] X := by simp [repeat0, repeat0Loop_stop hz]
+  simpa [verticalSpaces, vsElem] using congrArg (Res.map fun _ => ()) this
+
+theorem verticalSpaces_nl {X : List Char} (h : StartsEntry X ∨ X = []) : verticalSpaces ('\n' :: X) = .ok () X := by
+  obtain ⟨z, hz⟩ := vsElem_stop h
+  have h1 : vsElem ('\n' :: X) = .ok () X := by simp [vsElem, alt2]
+  have : repeat0 vsElem ('\n' :: X) = .ok [()] X := by
+    simp only [repeat0, List.length_cons]
+    rw [repeat0Loop_step h1 (by simp)]
+    cases hX : X.length with
+    | zero => simp [repeat0Loop_stop hz]
+    | succ m => simp [repeat0Loop_stop hz]
+  simpa [verticalSpaces, vsElem] using congrArg (Res.map fun _ => ()) this
+
+
+/-- one entry as `format` writes it -/
+def pe (w : List Char → Nat) (e : Entry) : List Char := printEntry w e ++ ['\n']
+
+theorem formatEntries_eq (w : List Char → Nat) (es : List Entry) : formatEntries w es = es.flatMap (pe w) := rfl
+
+/-- the entry parser reads back a printed entry that is followed by the empty line `format` writes -/
+def EntryRT (w : List Char → Nat) (e : Entry) : Prop :=
+  StartsEntry (printEntry w e) ∧ ∀ rest, parseLedgerEntry (printEntry w e ++ '\n' :: rest) = .ok e ('\n' :: rest)
+
+theorem startsEntry_flatMap {w : List Char → Nat} {es : List Entry} (h : ∀ e ∈ es, EntryRT w e) :
+    StartsEntry (es.flatMap (pe w)) ∨ es.flatMap (pe w) = [] := by
+  cases es with
+  | nil => right; rfl
+  | cons e t =>
+    left
+    obtain ⟨c, r, hc, h1⟩ := (h e (by simp)).1
+    exact ⟨c, r ++ '\n' :: t.flatMap (pe w), by simp [pe, hc], h1⟩
+
+/-- `ParsedIter` on `'\n' :: formatted entries` -/
+theorem parsedIter_nl (w : List Char → Nat) (whole : List Char) :
+    ∀ (es : List Entry), (∀ e ∈ es, EntryRT w e) → ∀ (n : Nat) (acc : List (Nat × Nat × Entry)), es.length < n →
+      ∃ sp, parsedIter parseLedgerEntry verticalSpaces whole n ('\n' :: es.flatMap (pe w)) acc = (acc ++ sp, .done) ∧
+        sp.map (·.2.2) = es := by
+  intro es
+  induction es with
+  | nil =>
+    intro _ n acc hn
+    cases n with
+    | zero => omega
+    | succ n =>
+      refine ⟨[], ?_, rfl⟩
+      simp [parsedIter, verticalSpaces_nl (X := []) (Or.inr rfl)]
+  | cons e t ih =>
+    intro h n acc hn
+    cases n with
+    | zero => omega
+    | succ n =>
+      have hsep := verticalSpaces_nl (startsEntry_flatMap (es := e :: t) h)
+      have hrt := (h e (by simp)).2 (t.flatMap (pe w))
+      have hne : ((e :: t).flatMap (pe w)).isEmpty = false := by
+        obtain ⟨c, r, hc, _⟩ := (h e (by simp)).1
+        simp [pe, hc]
+      obtain ⟨sp, h1, h2⟩ := ih (fun x hx => h x (by simp [hx])) n
+        (acc ++ [(utf8Len whole - utf8Len ((e :: t).flatMap (pe w)), utf8Len whole - utf8Len ('\n' :: t.flatMap (pe w)), e)])
+        (by simp at hn; omega)
+      refine ⟨(utf8Len whole - utf8Len ((e :: t).flatMap (pe w)), utf8Len whole - utf8Len ('\n' :: t.flatMap (pe w)), e) :: sp, ?_, by simp [h2]⟩
+      have hrt' : parseLedgerEntry ((e :: t).flatMap (pe w)) = .ok e ('\n' :: t.flatMap (pe w)) := by
+        simpa [pe, List.append_assoc] using hrt
+      rw [parsedIter]
+      simp only [hsep, hne, hrt']
+      simpa [List.append_assoc] using h1
+
+
+/-- `parse_ledger(..)` on the text `format` writes for `es` -/
+theorem parseEntries_format (w : List Char → Nat) (es : List Entry) (h : ∀ e ∈ es, EntryRT w e) :
+    parseEntries (formatEntries w es) = .ok es := by
+  rw [formatEntries_eq]
+  cases es with
+  | nil =>
+    simp [parseEntries, parseLedger, parseLedgerRun, parsedIter, verticalSpaces_stop (X := []) (Or.inr rfl), Outcome.map']
+  | cons e t =>
+    have hsep := verticalSpaces_stop (startsEntry_flatMap (es := e :: t) h)
+    have hrt := (h e (by simp)).2 (t.flatMap (pe w))
+    have hrt' : parseLedgerEntry ((e :: t).flatMap (pe w)) = .ok e ('\n' :: t.flatMap (pe w)) := by
+      simpa [pe, List.append_assoc] using hrt
+    have hne : ((e :: t).flatMap (pe w)).isEmpty = false := by
+      obtain ⟨c, r, hc, _⟩ := (h e (by simp)).1
+      simp [pe, hc]
+    have hlen : t.length < ((e :: t).flatMap (pe w)).length := by
+      have := length_le_flatMap (pe w) t (fun y _ => by simp [pe])
+      simp only [List.flatMap_cons, List.length_append, pe, List.length_cons, List.length_nil]
+      omega
+    obtain ⟨sp, h1, h2⟩ := parsedIter_nl w ((e :: t).flatMap (pe w)) t (fun x hx => h x (by simp [hx]))
+      ((e :: t).flatMap (pe w)).length
+      ([] ++ [(utf8Len ((e :: t).flatMap (pe w)) - utf8Len ((e :: t).flatMap (pe w)),
+        utf8Len ((e :: t).flatMap (pe w)) - utf8Len ('\n' :: t.flatMap (pe w)), e)]) hlen
+    simp only [parseEntries, parseLedger, parseLedgerRun]
+    rw [parsedIter]
+    simp only [hsep, hne, hrt', h1]
+    simp [Outcome.map']
+    rw [← h2]; simp [Function.comp_def]
+
+theorem dispatch_cons {α : Type} (arms : Char → Parser α) (c : Char) (r : List Char) :
+    dispatch arms (c :: r) = arms c (c :: r) := rfl
+
+theorem entryRT_include (w : List Char → Nat) (p : String) (h : wfRestOfLine p.toList = true) :
+    EntryRT w (.include p) := by
+  refine ⟨⟨'i', _, rfl, by decide, by decide, by decide, by decide⟩, ?_⟩
+  intro rest
+  have := include_rt w p h ('\n' :: rest)
+  have hd : parseLedgerEntry (printEntry w (.include p) ++ '\n' :: rest) =
+      includeDirective (printEntry w (.include p) ++ '\n' :: rest) := by
+    simp [printEntry, kwInclude, parseLedgerEntry, dispatch_cons]
+  rw [hd, this]
+
+
+theorem entryRT_endApplyTag (w : List Char → Nat) : EntryRT w .endApplyTag := by
+  refine ⟨⟨'e', _, rfl, by decide, by decide, by decide, by decide⟩, ?_⟩
+  intro rest
+  have := endApplyTag_rt w ('\n' :: rest)
+  have hd : parseLedgerEntry (printEntry w .endApplyTag ++ '\n' :: rest) =
+      endApplyTag (printEntry w .endApplyTag ++ '\n' :: rest) := by
+    simp [printEntry, kwEnd, parseLedgerEntry, dispatch_cons]
+  rw [hd, this]
+
+theorem parseLedgerEntry_apply {Y r : List Char} {x : Entry} (h : applyTag (kwApply ++ Y) = .ok x r) :
+    parseLedgerEntry (kwApply ++ Y) = .ok x r := by
+  simp only [kwApply, List.cons_append, List.nil_append] at h
+  simp [parseLedgerEntry, kwApply, dispatch_cons, alt2, peek, literal, kwAccount, cutErr, h]
+
+theorem parseLedgerEntry_account {Y r : List Char} {x : Entry} (h : accountDeclaration (kwAccount ++ Y) = .ok x r) :
+    parseLedgerEntry (kwAccount ++ Y) = .ok x r := by
+  simp only [kwAccount, List.cons_append, List.nil_append] at h
+  simp [parseLedgerEntry, kwAccount, dispatch_cons, alt2, peek, literal, cutErr, h]
+
+theorem entryRT_applyTag (w : List Char → Nat) (k : String) (v : Option MetaValue) (hk : wfTag k.toList = true)
+    (hv : ∀ x, v = some x → wfMetaValue x = true) : EntryRT w (.applyTag k v) := by
+  refine ⟨⟨'a', _, rfl, by decide, by decide, by decide, by decide⟩, ?_⟩
+  intro rest
+  have := applyTag_rt w k v hk hv ('\n' :: rest)
+  simp only [printEntry, List.append_assoc] at this ⊢
+  exact parseLedgerEntry_apply this
+
+theorem entryRT_comment (w : List Char → Nat) (s : String) (h : wfMultiline isCommentPrefix s.toList = true) :
+    EntryRT w (.comment s) := by
+  have hlw : ∃ r, printEntry w (.comment s) = ';' :: r := by
+    unfold wfMultiline at h
+    cases hsp : splitLines s.toList [] with
+    | none => simp [hsp] at h
+    | some ls =>
+      simp [hsp, List.all_eq_true] at h
+      have hnoCr : ∀ l ∈ ls, ∀ c ∈ l, c ≠ '\r' := fun l hl c hc => (h.2 l hl).1 c hc
+      have hlines := splitLines_lines s.toList [] ls hsp hnoCr
+      cases ls with
+      | nil => simp at h
+      | cons l0 t =>
+        refine ⟨l0 ++ '\n' :: t.flatMap (fun l => ';' :: (l ++ ['\n'])), ?_⟩
+        simp [printEntry, lineWrap, lines, hlines.1]
+  obtain ⟨r, hr⟩ := hlw
+  refine ⟨⟨';', r, hr, by decide, by decide, by decide, by decide⟩, ?_⟩
+  intro rest
+  have := topComment_rt w s h ('\n' :: rest) (by simp [isCommentPrefix])
+  have hd : parseLedgerEntry (printEntry w (.comment s) ++ '\n' :: rest) =
+      topComment (printEntry w (.comment s) ++ '\n' :: rest) := by
+    rw [hr]
+    simp [parseLedgerEntry, dispatch_cons, isCommentPrefix]
+  rw [hd, this]
+
+
+/-! ## metadata lines -/
+
+theorem wfTag_head {k : List Char} (hk : wfTag k = true) :
+    ∃ c t, k = c :: t ∧ isSpace c = false ∧ c ≠ ':' ∧ isAsciiWhitespace c = false := by
+  cases k with
+  | nil => simp [wfTag] at hk
+  | cons c t =>
+    simp [wfTag, isTagChar] at hk
+    have := hk.1
+    refine ⟨c, t, rfl, ?_, this.2, this.1⟩
+    have h1 := this.1
+    simp [isAsciiWhitespace] at h1
+    simp [isSpace, h1]
+
+/-- the tag-word item `tag ":"` -/
+def tagItem : Parser (List Char) := terminated tagKey (char ':')
+
+theorem tagItem_rt {t X : List Char} (ht : wfTag t = true) : tagItem (t ++ ([':'] ++ X)) = .ok t X := by
+  have := tagKey_rt (k := t) (X := ':' :: X) ht (by intro c r e; cases e; simp)
+  simp [tagItem, this]
+
+theorem tagItem_nl (X : List Char) : tagItem ('\n' :: X) = .bt ('\n' :: X) := by
+  have : tagKey ('\n' :: X) = .bt ('\n' :: X) := takeTill1_stop (by intro c r e; cases e; simp [isAsciiWhitespace])
+  simp [tagItem, this]
+
+/-- `metadata_tags` followed by the end of the line -/
+theorem metadataTags_rt (ts : List String) (hne : ts ≠ []) (hts : ∀ t ∈ ts, wfTag t.toList = true) (rest : List Char) :
+    terminated metadataTags (peek lineEndingOrEof) (printMetadata (.wordTags ts) ++ '\n' :: rest) =
+      .ok (.wordTags ts) ('\n' :: rest) := by
+  cases ts with
+  | nil => exact absurd rfl hne
+  | cons t0 ts' =>
+    let pr : List Char → List Char := fun t => t ++ [':']
+    have hloop := repeat0Loop_list (p := tagItem) (pr := pr) (fun _ => True) ('\n' :: rest) ('\n' :: rest)
+      (tagItem_nl rest) trivial (ts'.map String.toList)
+      (by
+        intro x hx X _
+        obtain ⟨t, ht, rfl⟩ := List.mem_map.mp hx
+        simpa [pr, List.append_assoc] using tagItem_rt (X := X) (hts t (by simp [ht])))
+      (by intro x _; simp [pr]) (fun _ _ _ => trivial)
+      (((ts'.map String.toList).flatMap pr ++ '\n' :: rest).length + 1) [t0.toList] (by
+        have := length_le_flatMap pr (ts'.map String.toList) (fun y _ => by simp [pr])
+        rw [List.length_append]; omega)
+    have h0 := tagItem_rt (t := t0.toList) (X := (ts'.map String.toList).flatMap pr ++ '\n' :: rest) (hts t0 (by simp))
+    have hpm : printMetadata (.wordTags (t0 :: ts')) ++ '\n' :: rest
+        = ':' :: (t0.toList ++ ([':'] ++ ((ts'.map String.toList).flatMap pr ++ '\n' :: rest))) := by
+      simp [printMetadata, pr, List.flatMap_map, List.append_assoc]
+    rw [hpm]
+    have hsp : space0 ('\n' :: rest) = .ok [] ('\n' :: rest) := space0_stop (by simp [isSpace])
+    have hpk : peek lineEndingOrEof ('\n' :: rest) = .ok () ('\n' :: rest) := peek_ok (lineEndingOrEof_nl rest)
+    have hmt : metadataTags = map (fun ts => Metadata.wordTags (ts.map String.ofList))
+        (delimited (char ':') (repeat1 tagItem) space0) := rfl
+    rw [hmt]
+    simp only [terminated_apply, map_apply, delimited_apply, char_cons_self, Res.andThen_ok, repeat1, h0]
+    simp only [hloop, Res.andThen_ok, hsp, Res.map_ok, hpk]
+    simp
+
+
+theorem metadataTags_bt_of_head {X : List Char} (h : ∀ r, X ≠ ':' :: r) : metadataTags X = .bt X := by
+  cases X with
+  | nil => simp [metadataTags]
+  | cons c r =>
+    have hc : c ≠ ':' := by intro e; exact h r (by rw [e])
+    simp [metadataTags, char_cons_ne hc]
+
+theorem metadataKv_rt (k : String) (v : MetaValue) (hk : wfTag k.toList = true) (hv : wfMetaValue v = true)
+    (rest : List Char) :
+    metadataKv (printMetadata (.keyValue k v) ++ '\n' :: rest) = .ok (.keyValue k v) ('\n' :: rest) := by
+  have hX : ∀ c r, printMetaValue v ++ '\n' :: rest = c :: r → (isAsciiWhitespace c || c == ':') = true := by
+    intro c r e
+    cases v <;> simp [printMetaValue] at e <;> simp [← e.1]
+  have htk := tagKey_rt (X := printMetaValue v ++ '\n' :: rest) hk hX
+  have h3 : space0 (printMetaValue v ++ '\n' :: rest) = .ok [] (printMetaValue v ++ '\n' :: rest) :=
+    space0_stop (by cases v <;> simp [printMetaValue, isSpace])
+  simp [metadataKv, printMetadata, List.append_assoc, htk, h3, metadataValue_rt v hv]
+
+
+/-- `line_metadata` preceded by its indentation reads back a printed tag-words / key-value metadata line -/
+theorem metaLine_rt (m : Metadata) (hm : wfMetadata m = true) (hnc : ∀ s, m ≠ .comment s) (rest : List Char) :
+    preceded space1 lineMetadata (printMetaLine m ++ rest) = .ok m rest := by
+  have hind : ∀ X, Stop isSpace X → space1 (indent4 ++ X) = .ok indent4 X := fun X hX =>
+    space1_append (by simp [indent4]) (by simp [indent4, isSpace]) hX
+  have hsemi := hind (';' :: ' ' :: (printMetadata m ++ '\n' :: rest)) (by simp [isSpace])
+  have hsp : ∀ X, Stop isSpace X → space0 (' ' :: X) = .ok [' '] X := fun X hX => by
+    simpa using space0_append (a := [' ']) (by simp [isSpace]) hX
+  cases m with
+  | comment s => exact absurd rfl (hnc s)
+  | wordTags ts =>
+    simp [wfMetadata, List.all_eq_true] at hm
+    have h1 := metadataTags_rt ts (by intro e; simp [e] at hm) hm.2 rest
+    have hs0 := hsp (printMetadata (.wordTags ts) ++ '\n' :: rest) (by simp [printMetadata, isSpace])
+    simp only [printMetaLine, List.append_assoc, List.cons_append, List.nil_append, preceded_apply, hsemi,
+      Res.andThen_ok, lineMetadata, delimited_apply, pair_apply, char_cons_self, hs0, Res.map_ok]
+    rw [alt2_ok h1]
+    simp
+  | keyValue k v =>
+    simp [wfMetadata] at hm
+    have h2 := metadataKv_rt k v hm.1 hm.2 rest
+    obtain ⟨c, t, hk, hc1, hc2, _⟩ := wfTag_head hm.1
+    have hs0 := hsp (printMetadata (.keyValue k v) ++ '\n' :: rest) (by simp [printMetadata, hk, hc1])
+    have hbt : terminated metadataTags (peek lineEndingOrEof) (printMetadata (.keyValue k v) ++ '\n' :: rest)
+        = .bt (printMetadata (.keyValue k v) ++ '\n' :: rest) := by
+      have := metadataTags_bt_of_head (X := printMetadata (.keyValue k v) ++ '\n' :: rest)
+        (by intro r e; simp [printMetadata, hk] at e; exact hc2 e.1)
+      simp [this]
+    simp only [printMetaLine, List.append_assoc, List.cons_append, List.nil_append, preceded_apply, hsemi,
+      Res.andThen_ok, lineMetadata, delimited_apply, pair_apply, char_cons_self, hs0, Res.map_ok]
+    rw [alt2_bt hbt, alt2_ok h2]
+    simp
+
+
 end Okane.Unparse
